@@ -482,80 +482,67 @@ theorem shiftR_zero_val (sc : Nat) (h1 : 1 ≤ sc) (h7 : sc ≤ 7) (l : Bytes) (
   have := shiftR_val sc h1 h7 l hw 0 0
   simpa using this
 
-theorem d2rEmit_spec (bm : Nat) (e : Int) (x : Nat) (hx : x < 16) (rest : Bytes) (hw : Bytes.wf rest)
-    (hlast : ((16 + x) :: rest).getLastD 0 ≠ 0) :
-    d2rEmit bm e ((16 + x) :: rest) =
-      expHeader bm (e + (ctz (ofBE 0 ((16 + x) :: rest)) : Nat)) ++
-        (if ctz (ofBE 0 ((16 + x) :: rest)) ≥ 5 ∧ rest ≠ []
-         then 0 :: toBE (ofBE 0 ((16 + x) :: rest) / 2 ^ ctz (ofBE 0 ((16 + x) :: rest)))
-         else toBE (ofBE 0 ((16 + x) :: rest) / 2 ^ ctz (ofBE 0 ((16 + x) :: rest))))
-    ∧ ctz (ofBE 0 ((16 + x) :: rest)) ≤ 7 ∧ (rest = [] → ctz (ofBE 0 ((16 + x) :: rest)) ≤ 4) := by
-  have hwl : Bytes.wf ((16 + x) :: rest) := by
-    intro b hb; simp at hb; rcases hb with hb | hb
-    · omega
-    · exact hw b hb
-  have hhead : ∀ a l', (16 + x) :: rest = a :: l' → a ≠ 0 := by
-    intro a l' h; cases h; omega
-  obtain ⟨init, last, hl⟩ : ∃ init last, (16 + x) :: rest = init ++ [last] :=
-    ⟨_, _, (List.dropLast_append_getLast (l := (16 + x) :: rest) (by simp)).symm⟩
-  have hlast' : ((16 + x) :: rest).getLastD 0 = last := by rw [hl]; simp
+/-- the octets left by `while(mstart < mstop && *mstart == 0) mstart++` are the minimal
+    base-256 form of the (non-zero) number held in the buffer -/
+theorem stripZeros_eq_toBE (l : Bytes) (hw : Bytes.wf l) (h : ofBE 0 l ≠ 0) :
+    stripZeros l = toBE (ofBE 0 l) := by
+  induction l with
+  | nil => simp [ofBE] at h
+  | cons x t ih =>
+    cases t with
+    | nil =>
+      simp only [stripZeros]
+      have hx : x ≠ 0 := by simpa [ofBE] using h
+      exact (toBE_ofBE [x] hw (by intro a l' e; cases e; exact hx)).symm
+    | cons y rest =>
+      simp only [stripZeros]
+      by_cases hx : x = 0
+      · rw [if_pos hx]; subst hx
+        have e : ofBE 0 (0 :: y :: rest) = ofBE 0 (y :: rest) := by simp [ofBE]
+        rw [e] at h ⊢
+        exact ih (wf_tail hw) h
+      · rw [if_neg hx]
+        exact (toBE_ofBE _ hw (by intro a l' e; cases e; exact hx)).symm
+
+/-- the emitting half of `asn_double2REAL` on a scratch pad `dscr[0..mstop]` whose last octet is
+    non-zero (with or without the explicit 1): exponent raised by the number of trailing zero bits,
+    then the odd mantissa in the fewest octets -/
+theorem d2rEmit_spec (bm : Nat) (e : Int) (dscr : Bytes) (hwl : Bytes.wf dscr)
+    (hlast : dscr.getLastD 0 ≠ 0) :
+    d2rEmit bm e dscr =
+      expHeader bm (e + (ctz (ofBE 0 dscr) : Nat)) ++ toBE (ofBE 0 dscr / 2 ^ ctz (ofBE 0 dscr))
+    ∧ ctz (ofBE 0 dscr) ≤ 7 := by
+  have hne : dscr ≠ [] := by intro h; subst h; simp at hlast
+  obtain ⟨init, last, hl⟩ : ∃ init last, dscr = init ++ [last] :=
+    ⟨_, _, (List.dropLast_append_getLast (l := dscr) hne).symm⟩
+  have hlast' : dscr.getLastD 0 = last := by rw [hl]; simp
   have hl256 : last < 256 := hwl last (by rw [hl]; simp)
-  have hV : ofBE 0 ((16 + x) :: rest) = ofBE 0 init * 256 + last := by rw [hl, ofBE_append_single]
-  have hinit : rest = [] → last = 16 + x := by
-    intro h; subst h
-    cases init with
-    | nil => simp at hl; omega
-    | cons a t => simp at hl
+  have hV : ofBE 0 dscr = ofBE 0 init * 256 + last := by rw [hl, ofBE_append_single]
   rw [hlast'] at hlast
   unfold d2rEmit
   simp only [hlast']
-  have h0t : ∀ t : Bytes, ofBE 0 (0 :: t) = ofBE 0 t := by intro t; simp [ofBE]
   by_cases hev : last % 2 = 0
   · rw [if_pos ⟨hlast, hev⟩]
     obtain ⟨s1, s2, s3, s4⟩ := shiftCount_spec last hl256 hlast hev
     generalize shiftCount last = sc at *
     have hval := shiftR_zero_val sc s1 s2 _ hwl
-    have hswf := shiftR_wf sc 0 ((16 + x) :: rest)
-    by_cases h5 : sc ≤ 4
-    · have hc : ctz (ofBE 0 ((16 + x) :: rest)) = sc :=
-        ctz_spec _ sc (by rw [hV]; interval_cases sc <;> omega) (by rw [hV]; interval_cases sc <;> omega)
-      rw [hc]
-      refine ⟨?_, by omega, by omega⟩
-      congr 1
-      rw [if_neg (by omega), ← hval]
-      refine (toBE_ofBE _ hswf ?_).symm
-      intro a l' h
-      simp only [shiftR] at h
-      have := (List.cons.inj h).1
-      interval_cases sc <;> omega
-    · have hc : ctz (ofBE 0 ((16 + x) :: rest)) = sc :=
-        ctz_spec _ sc (by rw [hV]; interval_cases sc <;> omega) (by rw [hV]; interval_cases sc <;> omega)
-      rw [hc]
-      have hrne : rest ≠ [] := by
-        intro h; have := hinit h; interval_cases sc <;> omega
-      refine ⟨?_, by omega, by intro h; exact absurd h hrne⟩
-      congr 1
-      rw [if_pos ⟨by omega, hrne⟩, ← hval]
-      cases rest with
-      | nil => exact absurd rfl hrne
-      | cons r1 rest' =>
-        have hr1 : r1 < 256 := hw r1 (by simp)
-        simp only [shiftR] at hswf ⊢
-        have hz : (0 + (16 + x) / 2 ^ sc) % 256 = 0 := by interval_cases sc <;> omega
-        rw [hz, h0t]
-        congr 1
-        refine (toBE_ofBE _ (wf_tail hswf) ?_).symm
-        intro a l' h
-        have := (List.cons.inj h).1
-        interval_cases sc <;> omega
-  · rw [if_neg (by omega)]
-    have hc : ctz (ofBE 0 ((16 + x) :: rest)) = 0 := ctz_spec _ 0 (by simp [Nat.mod_one]) (by rw [hV]; simp; omega)
+    have hswf := shiftR_wf sc 0 dscr
+    have hc1 : ofBE 0 dscr / 2 ^ sc % 2 = 1 := by rw [hV]; interval_cases sc <;> omega
+    have hc : ctz (ofBE 0 dscr) = sc :=
+      ctz_spec _ sc (by rw [hV]; interval_cases sc <;> omega) hc1
     rw [hc]
-    refine ⟨?_, by omega, by omega⟩
+    refine ⟨?_, by omega⟩
+    congr 1
+    rw [← hval]
+    exact stripZeros_eq_toBE _ hswf (by rw [hval]; omega)
+  · rw [if_neg (by omega)]
+    have hc : ctz (ofBE 0 dscr) = 0 := ctz_spec _ 0 (by simp [Nat.mod_one]) (by rw [hV]; simp; omega)
+    rw [hc]
+    refine ⟨?_, by omega⟩
     simp only [Nat.cast_zero, Int.add_zero, Nat.pow_zero, Nat.div_one]
     congr 1
-    rw [if_neg (by omega)]
-    exact (toBE_ofBE _ hwl hhead).symm
+    exact stripZeros_eq_toBE _ hwl (by rw [hV]; omega)
+
 theorem rawOctets_eq (b : Nat) : rawOctets b =
     [b / 281474976710656 % 256, b / 1099511627776 % 256, b / 4294967296 % 256, b / 16777216 % 256,
      b / 65536 % 256, b / 256 % 256, b % 256] := by
@@ -590,20 +577,49 @@ theorem mstop_cases (b : Nat) :
   · exact ⟨0, by omega, by simp [h6, h5, h4, h3, h2, h1], by norm_num; omega, by omega⟩
 
 
-theorem double2REALfinite_normal (b : Nat) (hE1 : 1 ≤ expField b) :
+theorem ilogb_lt_iff (b : Nat) : ilogb b < -1022 ↔ expField b = 0 := by
+  unfold ilogb
+  by_cases h : expField b = 0
+  · rw [if_pos h]
+    refine ⟨fun _ => h, fun _ => ?_⟩
+    by_cases h0 : fracField b = 0
+    · rw [h0]; decide
+    · have : Nat.log2 (fracField b) < 52 := (Nat.log2_lt h0).mpr (Nat.mod_lt _ (by positivity))
+      omega
+  · rw [if_neg h]
+    constructor
+    · intro h'; omega
+    · intro h'; exact absurd h' h
+
+/-- **the general branch of `asn_double2REAL`, every finite non-zero double** (normal or subnormal):
+    with the IEEE-754 significand/exponent `(m, e) = toDyadic b` (hidden bit for normal doubles only)
+    and `t` the number of trailing zero bits of `m`, the stored octets are the first octet with the
+    exponent `e + t` followed by the odd mantissa `m / 2^t` in the fewest octets. -/
+theorem double2REALfinite_eq (b : Nat) (hnz : (toDyadic b).1 ≠ 0) :
     double2REALfinite b =
-      expHeader (128 + 64 * signOf b) ((expField b : Int) - 1075 + (ctz (2 ^ 52 + fracField b) : Nat)) ++
-      (if ctz (2 ^ 52 + fracField b) < 48 ∧ ctz (2 ^ 52 + fracField b) % 8 ≥ 5
-        then 0 :: toBE ((2 ^ 52 + fracField b) / 2 ^ ctz (2 ^ 52 + fracField b))
-        else toBE ((2 ^ 52 + fracField b) / 2 ^ ctz (2 ^ 52 + fracField b))) := by
-  obtain ⟨k, hk, hms, hz, hnz⟩ := mstop_cases b
+      expHeader (128 + 64 * signOf b) ((toDyadic b).2 + (ctz (toDyadic b).1 : Nat)) ++
+        toBE ((toDyadic b).1 / 2 ^ ctz (toDyadic b).1) := by
+  obtain ⟨k, hk, hms, hz, hnzk⟩ := mstop_cases b
   unfold double2REALfinite
   rw [hms]
-  have hil : ilogb b = (expField b : Int) - 1023 := by unfold ilogb; rw [if_neg (by omega)]
-  rw [hil]
   unfold scratch
   rw [rawOctets_eq]
   simp only [List.take_succ_cons]
+  -- `h` = the explicit 1 (normal) or nothing (subnormal); `e0` = the exponent of the hidden-bit position
+  obtain ⟨h, e0, hh, hif1, hif2, hM, hP⟩ : ∃ (h : Nat) (e0 : Int), (h = 0 ∨ h = 16) ∧
+      (if ilogb b < -1022 then 0 else 16) = h ∧ (if ilogb b < -1022 then -1022 else ilogb b) = e0 ∧
+      (toDyadic b).1 = h * 2 ^ 48 + fracField b ∧ (toDyadic b).2 = e0 - 52 := by
+    unfold toDyadic
+    by_cases hE : expField b = 0
+    · have := (ilogb_lt_iff b).mpr hE
+      exact ⟨0, -1022, Or.inl rfl, by rw [if_pos this], by rw [if_pos this], by rw [if_pos hE]; simp,
+        by rw [if_pos hE]; simp⟩
+    · have hi : ¬ ilogb b < -1022 := fun c => hE ((ilogb_lt_iff b).mp c)
+      refine ⟨16, ilogb b, Or.inr rfl, by rw [if_neg hi], by rw [if_neg hi], by rw [if_neg hE]; simp, ?_⟩
+      rw [if_neg hE]; unfold ilogb; rw [if_neg hE]; simp only []; omega
+  rw [hif1, hif2, hM, hP]
+  rw [hM] at hnz
+  clear hif1 hif2 hM hP
   have hx : b / 281474976710656 % 256 % 16 < 16 := by omega
   generalize hrest : List.take k [b / 1099511627776 % 256, b / 4294967296 % 256, b / 16777216 % 256,
      b / 65536 % 256, b / 256 % 256, b % 256] = rest
@@ -611,33 +627,28 @@ theorem double2REALfinite_normal (b : Nat) (hE1 : 1 ≤ expField b) :
     rw [← hrest]; intro y hy
     have := List.mem_of_mem_take hy
     simp at this; omega
-  have hS : 2 ^ 52 + fracField b = ofBE 0 ((16 + b / 281474976710656 % 256 % 16) :: rest) * 2 ^ (8 * (6 - k)) := by
+  have hwl : Bytes.wf ((h + b / 281474976710656 % 256 % 16) :: rest) := by
+    intro y hy; simp at hy; rcases hy with hy | hy
+    · omega
+    · exact hwr y hy
+  have hS : h * 2 ^ 48 + fracField b = ofBE 0 ((h + b / 281474976710656 % 256 % 16) :: rest) * 2 ^ (8 * (6 - k)) := by
     rw [← hrest]; unfold fracField
-    interval_cases k <;> simp [ofBE] <;> omega
-  have hlast : ((16 + b / 281474976710656 % 256 % 16) :: rest).getLastD 0 ≠ 0 := by
+    rcases hh with rfl | rfl <;> interval_cases k <;> simp [ofBE] <;> omega
+  have hlast : ((h + b / 281474976710656 % 256 % 16) :: rest).getLastD 0 ≠ 0 := by
     rw [← hrest]
-    interval_cases k <;> simp <;> omega
-  have hrk : rest = [] ↔ k = 0 := by
-    rw [← hrest]; interval_cases k <;> simp
-  obtain ⟨hspec, hc7, hc4⟩ := d2rEmit_spec (128 + 64 * signOf b)
-    ((expField b : Int) - 1023 - (8 * ((k : Int) + 1) - 4)) _ hx rest hwr hlast
+    unfold fracField at hnz
+    rcases hh with rfl | rfl <;> interval_cases k <;> simp <;> omega
+  obtain ⟨hspec, hc7⟩ := d2rEmit_spec (128 + 64 * signOf b)
+    (e0 - (8 * ((k : Int) + 1) - 4)) _ hwl hlast
   rw [hspec]
-  generalize ofBE 0 ((16 + b / 281474976710656 % 256 % 16) :: rest) = V at *
+  generalize ofBE 0 ((h + b / 281474976710656 % 256 % 16) :: rest) = V at *
   have hV0 : V ≠ 0 := by
-    intro h; subst h; simp at hS
+    intro h'; subst h'; simp at hS; omega
   obtain ⟨c1, c2⟩ := ctz_mul_pow V (8 * (6 - k)) hV0
   rw [hS, c1, c2]
   generalize ctz V = c at *
-  congr 1
-  · congr 1; push_cast; omega
-  · have hcond : (c ≥ 5 ∧ rest ≠ []) ↔ (8 * (6 - k) + c < 48 ∧ (8 * (6 - k) + c) % 8 ≥ 5) := by
-      rw [Ne, hrk]
-      constructor
-      · rintro ⟨h1, h2⟩; omega
-      · rintro ⟨h1, h2⟩
-        have : k ≠ 0 := by intro h; subst h; omega
-        omega
-    simp only [hcond]
+  congr 2
+  push_cast; omega
 
 /-! ### `asn_REAL2double` on base-2 contents with a mantissa below 2^53 -/
 
